@@ -647,11 +647,13 @@ def strip_assuming(t):
     return tuple(strip_assuming(x) for x in t)
 
 
-def _canon(t, lift: bool = False):
-    """Order the operands of symmetric comparisons (==, !=) canonically (substitution / inlining can disturb it)."""
+def _canon(t, lift: bool = False, level: int = 0):
+    """Canonical form of a skeleton (bottom-up).  ``level`` is the binder depth of ``t``: a quantifier / comprehension at
+    depth L binds the variables ("bv", L, i) and its body lives at depth L + 1 (its domain is evaluated at depth L)."""
     if not isinstance(t, tuple):
         return t
-    t = tuple(_canon(x, lift) for x in t)
+    _kids = list(_level_children(t, level))
+    t = tuple(_canon(x, lift, lv) for _i, x, lv in _kids) if _kids or not t else t
     if t and t[0] == "cmp" and len(t) == 4 and t[1] in ("==", "!="):
         a, b = sorted((t[2], t[3]), key=repr)
         return ("cmp", t[1], a, b)
@@ -662,23 +664,36 @@ def _canon(t, lift: bool = False):
 
         # a call through a method value:  (X.m)(args)  is  X.m(args)
         if t[2] == "<call>" and isinstance(t[1], tuple) and t[1] and t[1][0] == "attr" and len(t[1]) == 3:
-            return _canon_l(lift, ("call", t[1][1], t[1][2], t[3], t[4]))
+            return _canon_l(lift, level, ("call", t[1][1], t[1][2], t[3], t[4]))
         if t[2] == "<call>" and isinstance(t[1], tuple) and t[1] and t[1][0] == "name":
-            return _canon_l(lift, ("call", None, t[1][1], t[3], t[4]))
+            return _canon_l(lift, level, ("call", None, t[1][1], t[3], t[4]))
         # a conditional receiver / callee / argument is a conditional call:  (f if c else g)(x) == f(x) if c else g(x);  h(a if c else b) == h(a) if c else h(b)
         if lift and isinstance(t[1], tuple) and t[1] and t[1][0] == "ite":
             _i, c, a, b = t[1]
-            return _canon_l(lift, mk_ite(c, ("call", a, t[2], t[3], t[4]), ("call", b, t[2], t[3], t[4])))
+            return _canon_l(lift, level, mk_ite(c, ("call", a, t[2], t[3], t[4]), ("call", b, t[2], t[3], t[4])))
         for k, arg in enumerate(t[3] if lift else ()):
             if isinstance(arg, tuple) and arg and arg[0] == "ite":
                 _i, c, a, b = arg
-                return _canon_l(lift, mk_ite(c, ("call", t[1], t[2], t[3][:k] + (a,) + t[3][k + 1:], t[4]), ("call", t[1], t[2], t[3][:k] + (b,) + t[3][k + 1:], t[4])))
+                return _canon_l(lift, level, mk_ite(c, ("call", t[1], t[2], t[3][:k] + (a,) + t[3][k + 1:], t[4]), ("call", t[1], t[2], t[3][:k] + (b,) + t[3][k + 1:], t[4])))
             if isinstance(arg, tuple) and arg and arg[0] == "star" and isinstance(arg[1], tuple) and arg[1] and arg[1][0] == "ite":
                 _i, c, a, b = arg[1]
-                return _canon_l(lift, mk_ite(c, ("call", t[1], t[2], t[3][:k] + (("star", a),) + t[3][k + 1:], t[4]), ("call", t[1], t[2], t[3][:k] + (("star", b),) + t[3][k + 1:], t[4])))
+                return _canon_l(lift, level, mk_ite(c, ("call", t[1], t[2], t[3][:k] + (("star", a),) + t[3][k + 1:], t[4]), ("call", t[1], t[2], t[3][:k] + (("star", b),) + t[3][k + 1:], t[4])))
     if t and t[0] == "in" and len(t) == 3 and isinstance(t[2], tuple) and t[2] and t[2][0] == "tuple":
         # membership in a display does not depend on the order of its elements
         return ("in", t[1], ("tuple", tuple(sorted(t[2][1], key=repr))))
+    if t and t[0] in ("exists", "forall") and len(t) == 3:
+        q = _split_product_quantifier(t, level)
+        if q is not None:
+            return _canon(q, lift, level)
+        q = _display_quantifier(t, level)
+        if q is not None:
+            return _canon(q, lift, level)
+        q = _comp_domain_quantifier(t, level)
+        if q is not None:
+            return _canon(q, lift, level)
+        q = _order_quantifiers(t, level)
+        if q is not None:
+            return q
     if t and t[0] == "exists" and len(t) == 3 and isinstance(t[2], tuple) and t[2] and t[2][0] == "or":
         # Exists v: (A or B)  ==  (Exists v: A) or (Exists v: B)
         from .skeleton import mk_or
@@ -692,8 +707,152 @@ def _canon(t, lift: bool = False):
 
 
 
-def _canon_l(lift: bool, t):
-    return _canon(t, lift)
+def _bv_levels(t, out: set) -> None:
+    if isinstance(t, tuple):
+        if t and t[0] == "bv" and len(t) == 3:
+            out.add(t[1])
+        else:
+            for x in t:
+                _bv_levels(x, out)
+
+
+def _quantifier_level(t) -> Optional[int]:
+    """level L of the variables a quantifier (kind, dom, body) binds: the smallest bv level of the body that the domain does
+    not use ... determined as the smallest level occurring in the body that is larger than every level of the domain"""
+    dom_levels: set = set()
+    _bv_levels(t[1], dom_levels)
+    body_levels: set = set()
+    _bv_levels(t[2], body_levels)
+    lo = (max(dom_levels) + 1) if dom_levels else 0
+    cands = sorted(x for x in body_levels if x >= lo)
+    return cands[0] if cands else None
+
+
+def _map_bv(t, fn):
+    if isinstance(t, tuple):
+        if t and t[0] == "bv" and len(t) == 3:
+            return fn(t)
+        return tuple(_map_bv(x, fn) for x in t)
+    return t
+
+
+def _split_product_quantifier(t, L: int):
+    """Q p in product(A, B): body   ->   Q a in A: Q b in B: body[p := (a, b)]   (also for a tuple target (a, b))"""
+    kind, dom, body = t
+    if not (isinstance(dom, tuple) and dom and dom[0] == "iter" and isinstance(dom[1], tuple) and dom[1] and dom[1][0] == "call" and dom[1][1] is None and dom[1][2] == "product"
+            and len(dom[1][3]) == 2 and not dom[1][4]):
+        return None
+    A, B = dom[1][3]
+    used = set()
+
+    def collect(x):
+        if isinstance(x, tuple):
+            if x and x[0] == "bv" and len(x) == 3 and x[1] == L:
+                used.add(x[2])
+            for y in x:
+                collect(y)
+    collect(body)
+    pair_target = used <= {0, 1} and 1 in used  # for a, b in product(..)
+    first, second = ("bv", L, 0), ("bv", L + 1, 0)
+
+    def rewrite(x):
+        if not isinstance(x, tuple):
+            return x
+        if x and x[0] == "unpack" and len(x) == 3 and x[1] == ("bv", L, 0) and not pair_target and x[2] in (0, 1):
+            return first if x[2] == 0 else second
+        if x and x[0] == "bv" and len(x) == 3:
+            if x[1] == L:
+                if pair_target:
+                    return first if x[2] == 0 else second
+                return ("tuple", (first, second))
+            if x[1] > L:
+                return ("bv", x[1] + 1, x[2])
+            return x
+        return tuple(rewrite(y) for y in x)
+
+    return (kind, ("iter", A), (kind, ("iter", B), rewrite(body)))
+
+
+def _display_quantifier(t, L: int):
+    """Q v in (e1, e2, ..): body  ->  body[v := e1] (and|or) body[v := e2] ..   for a display of at most four elements"""
+    from .skeleton import mk_and, mk_or
+
+    kind, dom, body = t
+    if not (isinstance(dom, tuple) and dom and dom[0] == "iter" and isinstance(dom[1], tuple) and dom[1] and dom[1][0] == "tuple" and 1 <= len(dom[1][1]) <= 4):
+        return None
+    parts = []
+    for e in dom[1][1]:
+        def rewrite(x, e=e):
+            if not isinstance(x, tuple):
+                return x
+            if x and x[0] == "bv" and len(x) == 3:
+                if x[1] == L:
+                    return e if x[2] == 0 else ("unpack", e, x[2])
+                if x[1] > L:
+                    return ("bv", x[1] - 1, x[2])
+                return x
+            return tuple(rewrite(y) for y in x)
+        parts.append(rewrite(body))
+    return mk_and(parts) if kind == "forall" else mk_or(parts)
+
+
+def _comp_domain_quantifier(t, L: int):
+    """Q v in (E(x) for x in D if C): body(v)   ->   Q x in D: [C and / C implies] body(E(x))     (also set / list comprehensions:
+    a quantifier does not care about multiplicity or order)"""
+    from .skeleton import TRUE, mk_and, mk_or, neg
+
+    kind, dom, body = t
+    if not (isinstance(dom, tuple) and dom and dom[0] == "iter" and isinstance(dom[1], tuple) and dom[1] and dom[1][0] == "comp" and len(dom[1]) == 5):
+        return None
+    _c, _k, dom0, conds0, elt = dom[1]
+    if isinstance(elt, tuple) and elt and elt[0] == "comp":
+        return None
+    idxs = set()
+
+    def collect(x):
+        if isinstance(x, tuple):
+            if x and x[0] == "bv" and len(x) == 3 and x[1] == L:
+                idxs.add(x[2])
+            for y in x:
+                collect(y)
+    collect(body)
+    tuple_target = any(i > 0 for i in idxs)
+
+    def rewrite(x):
+        if not isinstance(x, tuple):
+            return x
+        if x and x[0] == "bv" and len(x) == 3 and x[1] == L:
+            return ("unpack", elt, x[2]) if tuple_target else elt
+        return tuple(rewrite(y) for y in x)
+
+    nb = rewrite(body)
+    if kind == "forall":
+        return ("forall", dom0, mk_or([neg(conds0), nb]) if conds0 != TRUE else nb)
+    return ("exists", dom0, mk_and([conds0, nb]) if conds0 != TRUE else nb)
+
+
+def _order_quantifiers(t, L: int):
+    """Q a in A: Q b in B: body  with B independent of a: the two quantifiers commute; the smaller domain text goes outside"""
+    kind, dom, body = t
+    if not (isinstance(body, tuple) and len(body) == 3 and body[0] == kind):
+        return None
+    inner_dom = body[1]
+    lv: set = set()
+    _bv_levels(inner_dom, lv)
+    if L in lv or repr(inner_dom) >= repr(dom):
+        return None
+
+    def swap(x):
+        if x[1] == L:
+            return ("bv", L + 1, x[2])
+        if x[1] == L + 1:
+            return ("bv", L, x[2])
+        return x
+    return (kind, inner_dom, (kind, dom, _map_bv(body[2], swap)))
+
+
+def _canon_l(lift: bool, level: int, t):
+    return _canon(t, lift, level)
 
 
 def canon_sym(t):
